@@ -172,6 +172,20 @@ def gen_case(rng, params, idx):
         if len(pos) == npos and not kw:
             pos.append({"n": f"a{len(pos)}", "t": "object"})
         extras.append({"mid": 90 + e, "pos": pos, "kw": kw, "prio": rng.choice([0, 0, 1]), "kind": "leaf"})
+    if flavour == "static" and rng.random() < 0.3:
+        # classes as arguments, dispatched on their metaclass; the additions are type[...] methods that do not apply to
+        # the classes passed (they change how the entry point looks arguments up at that position, nothing else)
+        for m in methods:
+            for p in m["pos"]:
+                if rng.random() < 0.4:
+                    p["t"] = rng.choice(["ABCMeta", "ABCMeta", "object"])
+        cvals = [["c", "Shape"], ["c", "Hook"], ["c", "Hashable"], ["c", names[0]]]
+        spec["calls"] = calls + [{"pos": [rng.choice(cvals + vals) if j != k else rng.choice(cvals) for j in range(npos)], "kw": {}}
+                                 for k in range(npos) for _ in range(8)]
+        extras = extras + [{"mid": 95 + j, "pos": [{"n": f"a{i}", "t": (["Ty", rng.choice(["str", "int"])] if i == j else "object")}
+                                                    for i in range(npos)], "kw": [], "prio": 0, "kind": "leaf"}
+                           for j in range(npos)]
+        spec["classes_as_arguments"] = True
     spec["extras"] = extras
     spec["perm_seeds"] = [rng.randrange(1 << 30) for _ in range(4)]
     return spec
@@ -308,6 +322,8 @@ def check_case(spec, res):
     methods = spec["methods"]
     rng = random.Random(spec["perm_seeds"][0])
     res.count("programs")
+    if spec.get("classes_as_arguments"):
+        res.count("programs_classes_as_arguments")
     res.sample({k: spec[k] for k in ("hier", "methods", "npos", "flavour", "extras")} | {"calls": spec["calls"][:3]},
                spec["flavour"])
     try:
